@@ -56,6 +56,7 @@ def run(ctx):
         if alt == recs:
             continue
         t = rng.choice([3, 4, 5]) if kind == "protein" else rng.choice([0, 1, 2, 5])
+        t = gen.fit_type(t, kind, recs)
         api = rng.choice(["file", "arr"])
         th = rng.choice([1, 4])
         a = Case(recs, t, threads=th, api=api, fmt="fasta")
